@@ -928,6 +928,117 @@ def strip_comments(text, marker):
     return [l for l in text.splitlines() if not l.startswith(marker)]
 
 
+def case_compression_specs(ctx, rseed):
+    """-T xorcomp / majcomp with the bipartite graph written out as a specification (random constructions, modifiers,
+    `save`): the result is the library's VariableCompression of the base formula through the graph that `save` stored,
+    and the same --seed gives the same formula whatever the generator's state was before."""
+    import cnfgen
+    r = ctx.rng("c17comp", rseed)
+    tmp = tempfile.mkdtemp(prefix="c17comp-")
+    try:
+        bases = [(["php", "3", "2"], 6), (["and", "2", "2"], 4), (["op", "3"], 6), (["count", "4", "2"], 6)]
+        for base, nv in bases:
+            for kind in ("xorcomp", "majcomp"):
+                for spec in (["glrd", str(nv), "4", "2"], ["glrm", str(nv), "5", str(nv + 3)], ["glrp", str(nv), "4", ".6"],
+                             ["regular", str(nv), "3", "1"], ["complete", str(nv), "2"], ["empty", str(nv), "4", "addedges", str(nv + 1)],
+                             ["glrd", str(nv), "5", "1", "plantbiclique", "2", "2"]):
+                    out = os.path.join(tmp, "B.matrix")
+                    seed = r.randint(0, 10 ** 6)
+                    argv = ["cnfgen", "-q", "--seed", str(seed)] + base + ["-T", kind] + spec + ["save", out]
+                    label = " ".join(argv).replace(tmp, "<dir>")
+                    got = []
+                    for ambient in (12345, 999):
+                        random.seed(ambient)
+                        try:
+                            F = cli_formula("cnfgen", argv)
+                        except BaseException as e:      # noqa: BLE001
+                            if isinstance(e, KeyboardInterrupt) or type(e).__name__ == "CaseTimeout":
+                                raise
+                            got.append(("refused", type(e).__name__))
+                            continue
+                        got.append((F.number_of_variables(), [sorted(c) for c in F]))
+                        ctx.count("compression_specs_run")
+                        try:
+                            B = cnfgen.readGraph(out, "bipartite", "matrix")
+                            F0 = cli_formula("cnfgen", ["cnfgen", "-q"] + base)
+                            R_ = cnfgen.VariableCompression(F0, B, "xor" if kind == "xorcomp" else "maj")
+                            if (R_.number_of_variables(), [sorted(c) for c in R_]) != got[-1]:
+                                ctx.violation("%s:not-the-compression-through-the-saved-graph" % kind,
+                                              "`%s`: the formula is not VariableCompression(%s, <graph stored by save>)" % (label, " ".join(base)))
+                        except Exception as e:       # noqa: BLE001
+                            ctx.count("saved_graph_not_read")
+                    if len(got) == 2 and got[0] != got[1]:
+                        ctx.violation("%s:same-seed-different-formula" % kind, "`%s` run twice in one process with different generator states "
+                                      "before the call gives two different formulas" % label)
+                    ctx.judged(("comp-spec", tuple(base), kind, tuple(spec)), nontrivial=True, sample={"command": label})
+    finally:
+        shutil.rmtree(tmp, ignore_errors=True)
+
+
+def case_option_order(ctx, rseed):
+    """The modifiers of a graph argument written in another order: which modifier is applied first is the tool's
+    business, not the spelling's, so with the same --seed the same formula must come out; and whatever the order,
+    the graph stored by `save` is the graph the formula was built on."""
+    import itertools as it
+    import cnfgen
+    r = ctx.rng("c17order", rseed)
+    tmp = tempfile.mkdtemp(prefix="c17ord-")
+    try:
+        items = [("kcolor", ["3"], "simple", [["gnm", "9", "7"], ["grid", "3", "3"], ["complete", "5"], ["gnp", "8", ".4"]],
+                  [["plantclique", "3"], ["addedges", "4"], ["splitedges", "2"]]),
+                 ("matching", [], "simple", [["gnm", "8", "9"], ["torus", "3", "3"]], [["plantclique", "4"], ["addedges", "3"], ["splitedges", "3"]]),
+                 ("php", [], "bipartite", [["glrm", "6", "5", "8"], ["glrd", "5", "6", "2"], ["empty", "4", "4"]],
+                  [["plantbiclique", "2", "2"], ["addedges", "5"]]),
+                 ("subsetcard", [], "bipartite", [["regular", "6", "6", "2"]], [["plantbiclique", "2", "3"], ["addedges", "4"]])]
+        for sub, lead, gtype, bases, mods in items:
+            for base in bases:
+                mods = [tuple(m) for m in mods]
+                for k in range(2, len(mods) + 1):
+                    for chosen in it.combinations(mods, k):
+                        seed = r.randint(0, 10 ** 6)
+                        results = {}
+                        for perm in it.permutations(chosen):
+                            for tool in ("cnfgen", "pbgen"):
+                                out = os.path.join(tmp, "g.%s" % ("kthlist" if gtype == "simple" else "matrix"))
+                                spec = list(base) + [t for m in perm for t in m] + ["save", out]
+                                argv = [tool, "-q", "--seed", str(seed), sub] + lead + spec
+                                try:
+                                    F = cli_formula(tool, argv)
+                                except BaseException as e:      # noqa: BLE001
+                                    if isinstance(e, KeyboardInterrupt) or type(e).__name__ == "CaseTimeout":
+                                        raise
+                                    results[(perm, tool)] = ("refused", type(e).__name__)
+                                    continue
+                                ctx.count("option_orders_run")
+                                body = (F.number_of_variables(), list(F.all_variable_labels()), [list(map(repr, c)) if hasattr(F, "_constraints") else list(c) for c in F])
+                                results[(perm, tool)] = ("ok", body)
+                                # the stored graph is the graph of the formula
+                                try:
+                                    H = cnfgen.readGraph(out, gtype, "kthlist" if gtype == "simple" else "matrix")
+                                    fam = {"kcolor": lambda: cnfgen.GraphColoringFormula(H, 3), "matching": lambda: cnfgen.PerfectMatchingPrinciple(H),
+                                           "php": lambda: cnfgen.GraphPigeonholePrinciple(H), "subsetcard": lambda: cnfgen.SubsetCardinalityFormula(H)}[sub]
+                                    if tool == "cnfgen":
+                                        R_ = fam()
+                                        if [list(c) for c in R_] != [list(c) for c in F] or R_.number_of_variables() != F.number_of_variables():
+                                            ctx.violation("%s:saved-graph-is-not-the-graph-of-the-formula" % sub,
+                                                          "`%s`: the formula differs from %s on the graph stored by save" % (" ".join(argv).replace(tmp, "<dir>"), sub))
+                                except Exception:       # noqa: BLE001
+                                    ctx.count("saved_graph_not_read")
+                        for tool in ("cnfgen", "pbgen"):
+                            first = results.get((tuple(chosen), tool))
+                            for perm in it.permutations(chosen):
+                                got = results.get((perm, tool))
+                                if got != first:
+                                    ctx.violation("%s:modifier-spelling-order-changes-the-formula" % sub,
+                                                  "`%s --seed %d %s %s ...`: the modifiers written as %r give another formula than written as %r"
+                                                  % (tool, seed, sub, " ".join(lead + base), [" ".join(m) for m in perm], [" ".join(m) for m in chosen]))
+                                    break
+                        ctx.judged(("option-order", sub, tuple(base), tuple(map(tuple, chosen))), nontrivial=True,
+                                   sample={"command": "%s %s %s + %r in every order" % (sub, " ".join(lead), " ".join(base), [" ".join(m) for m in chosen])})
+    finally:
+        shutil.rmtree(tmp, ignore_errors=True)
+
+
 def case_output_options(ctx):
     """-q / -v / --varnames / -of / -o select the rendering and change nothing else."""
     from ..refmodels import c12_opb
@@ -1086,5 +1197,8 @@ def workload(tier, seed):
     yield "files", {}
     yield "output_options", {}
     yield "kthlist_texts", {}
+    for i in range(1 if tier == "quick" else 12):
+        yield "option_order", {"rseed": seed * 10 + i}
+        yield "compression_specs", {"rseed": seed * 10 + i}
     for i in range(2 if tier == "quick" else 10):
         yield "file_reuse", {"rseed": seed * 10 + i}
